@@ -28,7 +28,8 @@ def main():
     try:
         t = sh("cd /repo && /venv/bin/python -m pytest -q -p no:cacheprovider -x 2>&1 | tail -1")
         print("pytest:", t.stdout.strip())
-        procs = {pr: subprocess.Popen(["/venv/bin/python", "harness/vcheck.py", pr, "--tier", "quick"], cwd=ROOT, text=True,
+        env = dict(os.environ, KOJEN_VERIF_EVIDENCE_DIR=os.path.join(ROOT, "replay", "mutation-evidence"))
+        procs = {pr: subprocess.Popen(["/venv/bin/python", "harness/vcheck.py", pr, "--tier", "quick"], cwd=ROOT, text=True, env=env,
                                       stdout=subprocess.PIPE, stderr=subprocess.STDOUT) for pr in props}
         for pr, q in procs.items():
             out = q.communicate()[0]
